@@ -28,7 +28,7 @@ REQUIRED = ['dot:UU', 'dot:UA', 'dot:AU', 'outer:UU', 'outer:UA', 'outer:AU', 't
 def cases(tier, seed):
     out = []
     Ds = [1, 2, 3, 5] if tier == 'quick' else [1, 2, 3, 4, 5, 6, 8]
-    reps = 1 if tier == 'quick' else 60
+    reps = 1 if tier == 'quick' else 500
     def add(kind, **prm):
         s = case_seed('C07', seed, kind, sorted(prm.items()))
         r = np.random.default_rng(s)
